@@ -261,7 +261,11 @@ func (op *Op) Run(recycling bool) sut.Outcome {
 			return sut.FromResult(validate.NewParamValidator(sg.Param(op.Def, op.Tag, "query"), op.Formats, opts...).Validate(op.Val))
 		})
 	default:
-		o := sut.ValidateSpec(op.Doc, sut.SpecOpts{Continue: op.Continue, Strict: true})
+		doc, err := sut.LoadSpec(op.Doc)
+		if err != nil {
+			return sut.Outcome{Panic: "harness: document does not load: " + err.Error()}
+		}
+		o := sut.ValidateDocWith(doc, sut.SpecOpts{Continue: op.Continue, Strict: true}, op.Formats)
 		return sut.Outcome{Valid: o.Valid, Errors: o.Errors, Warnings: o.Warnings, Panic: o.Panic, Stack: o.Stack}
 	}
 }
